@@ -154,6 +154,38 @@ func c10Scenarios() []c10Scenario {
 			return w, msg.SOAPRequest("", w.Cfg.AttributePath(), msg.SignEnveloped(env, []string{"Body", "AttributeQuery"}, xt.Style{}, world.SPA, msg.SignOpts{KeyInfo: true}))
 		}, "attrquery"},
 	)
+	// the same requests in other legal or near-legal spellings (other decoding / lookup paths): the Issuer on a line of its own
+	// (white space around the entity ID), and every lexical variant at once (CDATA, character references, comments, ...)
+	padded := "\n    " + msg.SPA().EntityID + "\n  "
+	lexAll := xt.Style{}
+	lexStyle(&lexAll, "all")
+	for _, v := range []struct {
+		name   string
+		issuer string
+		st     xt.Style
+	}{{"issuer-on-its-own-line", padded, xt.Style{}}, {"every-lexical-variant", msg.SPA().EntityID, lexAll}, {"issuer-trailing-blank", msg.SPA().EntityID + " ", xt.Style{Indent: true}}} {
+		v := v
+		s = append(s,
+			c10Scenario{"sso-redirect-unsigned[" + v.name + "]", func() (*world.World, *http.Request) {
+				w := c10World(world.Config{})
+				doc := msg.Authn(msg.AuthnOpts{Issuer: v.issuer, Destination: w.Cfg.SSOLocation("")}).Render(v.st)
+				return w, msg.Redirect{XML: doc, RelayState: "rs"}.Request("", w.Cfg.SSOPath())
+			}, "sso"},
+			c10Scenario{"sso-post-unsigned[" + v.name + "]", func() (*world.World, *http.Request) {
+				w := c10World(world.Config{})
+				doc := msg.Authn(msg.AuthnOpts{Issuer: v.issuer, Destination: w.Cfg.SSOLocation("")}).Render(v.st)
+				return w, msg.PostForm("", w.Cfg.SSOPath(), "SAMLRequest", doc, "rs", nil)
+			}, "sso"},
+			c10Scenario{"logout-post[" + v.name + "]", func() (*world.World, *http.Request) {
+				w := c10World(world.Config{})
+				return w, msg.PostForm("", w.Cfg.SLOPath(), "SAMLRequest", msg.Logout(msg.LogoutOpts{Issuer: v.issuer}).Render(v.st), "rs", nil)
+			}, "logout"},
+			c10Scenario{"attrquery-unsigned[" + v.name + "]", func() (*world.World, *http.Request) {
+				w := c10World(world.Config{})
+				return w, msg.SOAPRequest("", w.Cfg.AttributePath(), msg.SOAP(msg.AttrQuery(msg.AttrQueryOpts{Issuer: v.issuer, NameID: "alice"})).Render(v.st))
+			}, "attrquery"},
+		)
+	}
 	for _, ms := range []string{"", world.RSASHA256, "urn:unknown:alg", world.RSASHA512} {
 		ms := ms
 		name := map[string]string{"": "off", world.RSASHA256: "rsa-sha256", "urn:unknown:alg": "unknown-alg", world.RSASHA512: "rsa-sha512"}[ms]
